@@ -88,6 +88,22 @@ fn scenario(plan: &SPlan, shared: Arc<Mutex<Shared>>) {
         }
     }
     let allowed = Arc::new(allowed);
+    // per boolean setting: which threads write it, and each writer's last value
+    // (0 = classic mode, 1 = quality scoring, 2 = stall guard)
+    let mut last_write: [Vec<(usize, bool)>; 3] = [Vec::new(), Vec::new(), Vec::new()];
+    for (ti, t) in plan.threads.iter().enumerate() {
+        for op in t {
+            let (f, v) = match op {
+                Op::SetMode(c) => (0, *c),
+                Op::SetQuality(b) => (1, *b),
+                Op::SetStall(b) => (2, *b),
+                _ => continue,
+            };
+            last_write[f].retain(|(w, _)| *w != ti);
+            last_write[f].push((ti, v));
+        }
+    }
+    let sole_writer: [Option<usize>; 3] = [0, 1, 2].map(|f| (last_write[f].len() == 1).then(|| last_write[f][0].0));
     let handles: Vec<_> = plan
         .threads
         .iter()
@@ -98,7 +114,15 @@ fn scenario(plan: &SPlan, shared: Arc<Mutex<Shared>>) {
             let shared = shared.clone();
             let allowed = allowed.clone();
             shuttle::thread::spawn(move || {
+                // what this thread itself last set, for the settings only it writes
+                let mut mine: [Option<bool>; 3] = [None, None, None];
                 for (k, op) in ops.iter().enumerate() {
+                    match op {
+                        Op::SetMode(c) => mine[0] = Some(*c),
+                        Op::SetQuality(b) => mine[1] = Some(*b),
+                        Op::SetStall(b) => mine[2] = Some(*b),
+                        _ => {}
+                    }
                     let mut seen: Option<u64> = None;
                     let mut bad: Option<(String, String)> = None;
                     match op {
@@ -121,7 +145,24 @@ fn scenario(plan: &SPlan, shared: Arc<Mutex<Shared>>) {
                         Op::SetStall(b) => {
                             let _ = dispatch(&cfg, None, None, &format!(r#"{{"jsonrpc":"2.0","method":"set_stall_deselect","params":{{"enabled":{b}}}}}"#));
                         }
-                        Op::Snapshot => seen = Some(cfg.snapshot().conn_timeout_ms),
+                        Op::Snapshot => {
+                            let snap = cfg.snapshot();
+                            seen = Some(snap.conn_timeout_ms);
+                            // a successful set_* is visible in the next snapshot: for a setting that
+                            // only this thread writes nothing can legitimately change it back
+                            let got = [snap.mode.is_classic(), snap.quality_enabled, snap.stall_deselect];
+                            for f in 0..3 {
+                                if sole_writer[f] == Some(ti)
+                                    && let Some(v) = mine[f]
+                                    && got[f] != v
+                                {
+                                    bad = Some((
+                                        "C18.effect".into(),
+                                        format!("lost_update: thread {ti} op {k}: setting #{f} (0 mode=classic, 1 quality, 2 stall guard) was set to {v} by its only writer, the next snapshot shows {}", got[f]),
+                                    ));
+                                }
+                            }
+                        }
                         Op::GetStatus => {
                             let resp = dispatch(&cfg, None, None, r#"{"jsonrpc":"2.0","id":"s","method":"get_status"}"#).map(|r| r.to_json()).unwrap_or_default();
                             let val: Value = serde_json::from_str(&resp).unwrap_or(Value::Null);
@@ -156,6 +197,22 @@ fn scenario(plan: &SPlan, shared: Arc<Mutex<Shared>>) {
         let _ = h.join();
     }
     shared.lock().unwrap().switches = shuttle::current::context_switches() as u64;
+    // quiescent end state: every boolean setting holds some writer's last value (the default if
+    // nobody wrote it)
+    let snap = cfg.snapshot();
+    let got = [snap.mode.is_classic(), snap.quality_enabled, snap.stall_deselect];
+    let defaults = [false, true, true];
+    for f in 0..3 {
+        let ok = if last_write[f].is_empty() { got[f] == defaults[f] } else { last_write[f].iter().any(|(_, v)| *v == got[f]) };
+        if !ok {
+            shared.lock().unwrap().violations.push(Violation::new(
+                "C18.effect",
+                "lost_update_end_state",
+                0,
+                format!("after all setters finished, setting #{f} (0 mode=classic, 1 quality, 2 stall guard) is {}, the last writes were {:?}", got[f], last_write[f]),
+            ));
+        }
+    }
     // quiescent end state: the timeout is one of the applied values
     let end = cfg.snapshot().conn_timeout_ms;
     if !allowed.contains(&end) {
